@@ -574,6 +574,10 @@ func (mru *memRepoUpload) Write(p []byte) (int, error) {
 func (mru *memRepoUpload) Close() error {
 	mru.mu.Lock()
 	defer mru.mu.Unlock()
+	// a session that was cancelled, evicted or expired while the request was in progress cannot be completed
+	if _, err := mru.mr.uploads.Get(mru.sessionID); err != nil {
+		return fmt.Errorf("session expired %s: %w", mru.sessionID, err)
+	}
 	if mru.expect != "" && mru.d.Digest() != mru.expect {
 		return fmt.Errorf("digest mismatch, expected %s, received %s%.0w", mru.expect, mru.d.Digest(), types.ErrDigestMismatch)
 	}
